@@ -36,10 +36,12 @@ ASSUMPTIONS = [
     "twin comparison skipped (and counted) after an accepted merge that shows C01's known defect (method state emptied): the method "
     "starts over there, with or without the injection",
 ]
-TIERS = {"quick": {"examples": 3200, "budget_s": 150, "max_top": 6, "max_depth": 3},
+TIERS = {"quick": {"examples": 2400, "budget_s": 150, "max_top": 6, "max_depth": 3},
          "thorough": {"examples": 64000, "budget_s": 1500, "max_top": 9, "max_depth": 4}}
 
-INJ_CMDS = ("Slow", "Set3")
+# one pair of command names per injection (same-name commands cancel each other: C11's subject); only the first snippet has
+# a long-running command, "slow" lines of the later ones become instant commands
+INJ_CMDS = [("Slow", "Set3"), (None, "Set1"), (None, "Set2")]
 EDIT_CMDS = ("OvA", "Quick")
 EDIT_KINDS_W = ["append_end"] * 3 + ["append_scope"] * 3 + ["change"] * 2 + ["insert"] * 3 + ["delete"] * 2 + ["ws"] + ["change_started"] * 2
 
@@ -83,6 +85,13 @@ def cases(draw, tier_cfg):
     if not any(x["k"] in ("mark", "quick", "slow") for x in snippet):
         snippet.append({"k": "mark"})
     ops.append({"op": "inject", "tick": t_inj, "snippet": snippet})
+    t_last = t_inj
+    for _ in range(draw(st.sampled_from([0, 0, 1, 1, 2]))):      # further injections shortly after (0-4 ticks): they overlap
+        t_last = t_last + draw(st.integers(0, 4))
+        sn = draw(E.snippet_strategy(allow_block=False))
+        if not any(x["k"] in ("mark", "quick", "slow") for x in sn):
+            sn.append({"k": "mark"})
+        ops.append({"op": "inject", "tick": t_last, "snippet": sn})
     if draw(st.integers(0, 8)) < 4:
         ops.append({"op": "edit", "tick": t_inj + draw(st.integers(0, 5)), "kind": draw(st.sampled_from(EDIT_KINDS_W)),
                     "idx": draw(st.integers(0, 40)), "payload": draw(st.lists(E.LEAF, min_size=1, max_size=2))})
@@ -106,7 +115,11 @@ def _valid(case) -> bool:
                     and all(k in ("In1", "In2", "Temp") and isinstance(v, (int, float)) for k, v in p[1].items())):
                 return False
         inj = [o for o in case["ops"] if o["op"] == "inject"]
-        if len(inj) != 1 or len([o for o in case["ops"] if o["op"] == "edit"]) > 1:
+        if not (1 <= len(inj) <= 3) or len([o for o in case["ops"] if o["op"] == "edit"]) > 1:
+            return False
+        if any(x.get("k") == "block" for o in inj[1:] for x in o["snippet"]):      # only the first snippet may hold a Block
+            return False
+        if [o["tick"] for o in inj] != sorted(o["tick"] for o in inj):
             return False
         # the edit never precedes the injection
         if any(o["op"] == "edit" and (o["tick"] < inj[0]["tick"] or case["ops"].index(o) < case["ops"].index(inj[0])) for o in case["ops"]):
@@ -170,28 +183,17 @@ def run_case(case):
     A = E.run_script(lines0, traj, ops, edit_cmds=EDIT_CMDS, inj_cmds=INJ_CMDS)
     if A["raised"] is not None:
         viol("tick-raised", "tick %d raised %s" % A["raised"])
-    inj = A["injects"][0]
-    snippet = ops[inj["op"]]["snippet"]
-    keys = inj["keys"]
-    t_inj = inj["tick"]
-    started_mid = bool(inj["ms_before"]["started"] - {"root"}) or bool(inj["cmds_running"])
-    info["nontrivial"] = started_mid
-    cl.append("inject-state:%s" % inj["state"])
-    cl.append("inject-tick:%s" % ("1-5" if t_inj <= 5 else "6-15" if t_inj <= 15 else "16-40" if t_inj <= 40 else ">40"))
-    if inj["has_block"]:
-        cl.append("snippet-block")
-    if any(k.startswith("cmd:Slow") for k in keys):
-        cl.append("snippet-slow")
-    if any(x["k"] == "wait" for x in snippet):
-        cl.append("snippet-wait")
-    if inj["cmds_running"]:
-        cl.append("inject-while-method-command-runs")
+    injs = A["injects"]
+    inj0 = injs[0]
+    any_block = any(i["has_block"] for i in injs)
+    cl.append("injections:%d" % len(injs))
+    for a_, b_ in zip(injs, injs[1:]):
+        cl.append("injection-gap:%d" % (b_["tick"] - a_["tick"]))
     edits = [r for r in A["edits"] if r["new_lines"] is not None]
     acc = [r for r in edits if r["accepted"]]
-    t_edit = acc[0]["tick"] if acc else None
     for r in A["edits"]:
         cl.append("edit:%s:%s" % (r["info"]["kind"], "noop" if r["new_lines"] is None else "accepted" if r["accepted"] else "rejected"))
-        cl.append("edit-delay:%d" % (r["tick"] - t_inj))
+        cl.append("edit-delay:%d" % (r["tick"] - inj0["tick"]))
     if not A["edits"]:
         cl.append("no-edit")
 
@@ -205,60 +207,86 @@ def run_case(case):
     for t, k in starts:
         counts[k] = counts.get(k, 0) + 1
         first_tick.setdefault(k, t)
-    # ---- exactly once, in order, only while running ----------------------------------------------------------------
     enough = A["quiet"] or A["n_ticks"] >= E.MAX_TICKS
-    lost = [k for k in keys if counts.get(k, 0) == 0]
-    keys_after_block = _keys_after_first_block(snippet, keys)
-    if lost and inj["has_block"] and open_blocks_B:
-        cl.append("lost-not-judged:method-block-never-ends")
-        lost = [k for k in lost if k not in _keys_from_first_block(snippet, keys)]
-    if lost and enough:
-        if t_edit is None and inj["has_block"] and all(k in keys_after_block for k in lost):
-            viol(SIG_BLOCK_NEVER_ENDS, "injected at tick %d (state %s): %r; the lines behind the injected block never ran in %d ticks: %s"
-                 % (t_inj, inj["state"], inj["pcode"], A["n_ticks"], lost))
-        elif t_edit is not None:
-            viol(SIG_LINES_LOST, "injected at tick %d: %r; edit accepted at tick %d; injected effects that never happened in %d ticks: %s"
-                 % (t_inj, inj["pcode"], t_edit, A["n_ticks"], lost))
-        else:
-            viol("inject:lost:%s" % _kind_of_key(lost[0]), "injected at tick %d (state %s): %r; effects that never happened in %d ticks: %s"
-                 % (t_inj, inj["state"], inj["pcode"], A["n_ticks"], lost))
-    for k in keys:
-        if counts.get(k, 0) > 1:
-            viol("inject:twice:%s%s" % (_kind_of_key(k), ":after-edit" if t_edit is not None else ""),
-                 "injected line %s produced its effect %d times (ticks %s)" % (k, counts[k], [t for t, kk in starts if kk == k]))
-    seen = [k for _, k in starts if k in keys]
-    want = [k for k in keys if k in seen]
-    dedup = []
-    for k in seen:
-        if k not in dedup:
-            dedup.append(k)
-    if dedup != want:
-        viol("inject:order", "injected %r ran in the order %s" % (inj["pcode"], dedup))
-    for t, k in starts:
-        if k in keys and A["state_before"].get(t) in ("Paused", "Holding"):
-            viol("inject:ran-while:%s" % A["state_before"][t], "injected line %s took effect in tick %d which began %s (injected at tick %d)"
-                 % (k, t, A["state_before"][t], t_inj))
-    # ---- injected commands: one init, one finalize --------------------------------------------------------------
-    for k in keys:
-        if not k.startswith("cmd:") or k not in life:
-            continue
-        d = life[k]
-        if d["fin"] == 0 and enough:
-            if t_edit is not None and first_tick[k] <= t_edit:
-                viol(SIG_CMD_LOST, "injected %s started at tick %d, edit accepted at tick %d, command never finalized (%s) in %d ticks; "
-                     "command instances left: %s" % (k, first_tick[k], t_edit, d, A["n_ticks"], A["cmds_left"]))
+
+    for n_inj, inj in enumerate(injs):
+        snippet = ops[inj["op"]]["snippet"]
+        keys = inj["keys"]
+        t_inj = inj["tick"]
+        if bool(inj["ms_before"]["started"] - {"root"}) or bool(inj["cmds_running"]):
+            info["nontrivial"] = True
+        cl.append("inject-state:%s" % inj["state"])
+        cl.append("inject-tick:%s" % ("1-5" if t_inj <= 5 else "6-15" if t_inj <= 15 else "16-40" if t_inj <= 40 else ">40"))
+        if inj["has_block"]:
+            cl.append("snippet-block")
+        if any(k.startswith("cmd:Slow") for k in keys):
+            cl.append("snippet-slow")
+        if any(x["k"] == "wait" for x in snippet):
+            cl.append("snippet-wait")
+        if inj["cmds_running"]:
+            cl.append("inject-while-method-command-runs" if any(c in ("OvA", "Quick") for c in inj["cmds_running"])
+                      else "inject-while-injected-command-runs")
+        if n_inj > 0:
+            prev_keys = [k for i2 in injs[:n_inj] for k in i2["keys"]]
+            if any(counts.get(k, 0) == 0 or first_tick[k] >= t_inj for k in prev_keys) or \
+                    any(c in ("Slow",) for c in inj["cmds_running"]):
+                cl.append("injection-overlaps-earlier-one")
+        later = [r for r in acc if (r["tick"], r["op"]) > (t_inj, inj["op"])]
+        t_edit = later[0]["tick"] if later else None
+        # ---- exactly once, in order, only while running ------------------------------------------------------------
+        lost = [k for k in keys if counts.get(k, 0) == 0]
+        keys_after_block = _keys_after_first_block(snippet, keys)
+        if lost and inj["has_block"] and open_blocks_B:
+            cl.append("lost-not-judged:method-block-never-ends")
+            lost = [k for k in lost if k not in _keys_from_first_block(snippet, keys)]
+        if lost and enough:
+            if t_edit is None and inj["has_block"] and all(k in keys_after_block for k in lost):
+                viol(SIG_BLOCK_NEVER_ENDS, "injected at tick %d (state %s): %r; the lines behind the injected block never ran in %d ticks: %s"
+                     % (t_inj, inj["state"], inj["pcode"], A["n_ticks"], lost))
+            elif t_edit is not None:
+                viol(SIG_LINES_LOST, "injected at tick %d: %r; edit accepted at tick %d; injected effects that never happened in %d ticks: %s"
+                     % (t_inj, inj["pcode"], t_edit, A["n_ticks"], lost))
             else:
-                viol("inject:cmd-not-finalized%s" % (":started-after-edit" if t_edit is not None else ""),
-                     "injected %s started at tick %d never finalized (%s)" % (k, first_tick[k], d))
-        if d["fin"] > 1 or d["init"] > 1:
-            viol("inject:cmd-lifecycle-repeated", "injected %s: %s" % (k, d))
-    # ---- promptness (coarse) -----------------------------------------------------------------------------------------
-    if not inj["has_block"] and t_edit is None and not lost and keys:
-        last = max(first_tick[k] for k in keys)
-        running_ticks = len([t for t in range(t_inj, last + 1) if A["state_before"].get(t) == "Running"])
-        if running_ticks > _snippet_cost(snippet):
-            viol("inject:late", "injected at tick %d: last injected effect at tick %d after %d ticks that began Running (bound %d)"
-                 % (t_inj, last, running_ticks, _snippet_cost(snippet)))
+                viol("inject:lost:%s" % _kind_of_key(lost[0]), "injection %d of %d at tick %d (state %s): %r; effects that never happened "
+                     "in %d ticks: %s; all injections: %s" % (n_inj + 1, len(injs), t_inj, inj["state"], inj["pcode"], A["n_ticks"], lost,
+                                                            [(i2["tick"], i2["pcode"]) for i2 in injs]))
+        for k in keys:
+            if counts.get(k, 0) > 1:
+                viol("inject:twice:%s%s" % (_kind_of_key(k), ":after-edit" if t_edit is not None else ""),
+                     "injected line %s produced its effect %d times (ticks %s)" % (k, counts[k], [t for t, kk in starts if kk == k]))
+        seen = [k for _, k in starts if k in keys]
+        want = [k for k in keys if k in seen]
+        dedup = []
+        for k in seen:
+            if k not in dedup:
+                dedup.append(k)
+        if dedup != want:
+            viol("inject:order", "injected %r ran in the order %s" % (inj["pcode"], dedup))
+        for t, k in starts:
+            if k in keys and A["state_before"].get(t) in ("Paused", "Holding"):
+                viol("inject:ran-while:%s" % A["state_before"][t], "injected line %s took effect in tick %d which began %s (injected at tick %d)"
+                     % (k, t, A["state_before"][t], t_inj))
+        # ---- injected commands: one init, one finalize ----------------------------------------------------------
+        for k in keys:
+            if not k.startswith("cmd:") or k not in life:
+                continue
+            d = life[k]
+            if d["fin"] == 0 and enough:
+                if t_edit is not None and first_tick[k] <= t_edit:
+                    viol(SIG_CMD_LOST, "injected %s started at tick %d, edit accepted at tick %d, command never finalized (%s) in %d ticks; "
+                         "command instances left: %s" % (k, first_tick[k], t_edit, d, A["n_ticks"], A["cmds_left"]))
+                else:
+                    viol("inject:cmd-not-finalized%s" % (":started-after-edit" if t_edit is not None else ""),
+                         "injected %s started at tick %d never finalized (%s)" % (k, first_tick[k], d))
+            if d["fin"] > 1 or d["init"] > 1:
+                viol("inject:cmd-lifecycle-repeated", "injected %s: %s" % (k, d))
+        # ---- promptness (coarse) -------------------------------------------------------------------------------------
+        if not any_block and not acc and not lost and keys:
+            last = max(first_tick[k] for k in keys)
+            running_ticks = len([t for t in range(t_inj, last + 1) if A["state_before"].get(t) == "Running"])
+            if running_ticks > _snippet_cost(snippet):
+                viol("inject:late", "injected at tick %d: last injected effect at tick %d after %d ticks that began Running (bound %d)"
+                     % (t_inj, last, running_ticks, _snippet_cost(snippet)))
     # ---- the method is untouched: twin without the injection --------------------------------------------------------
     reason = None
     merge_broken = any(r["accepted"] and (r["ms_before"]["started"] | r["ms_before"]["executed"] | r["ms_before"]["failed"])
@@ -266,7 +294,7 @@ def run_case(case):
     if merge_broken and EXCLUDE_KNOWN_C01_MERGE:
         reason = "known-C01-merge-discards-state"
         info["excluded"] = 1
-    elif inj["has_block"] and (S.has_interrupt_in_block() or any(p[0] > 0 for p in traj)):
+    elif any_block and (S.has_interrupt_in_block() or any(p[0] > 0 for p in traj)):
         reason = "injected-block-delays-method"
     if reason is None:
         eA = [(r["op"], r["accepted"], r["info"].get("target")) for r in A["edits"]]
@@ -279,7 +307,7 @@ def run_case(case):
             cl.append("twin-compared")
             if A["error_events"]:
                 viol("method-changed:method-error", "method error only with the injection: %s" % (A["error_events"][0][2:],))
-            byblk = "by-injected-block:" if inj["has_block"] else ""
+            byblk = "by-injected-block:" if any_block else ""
             robust = {lid for i, (lid, _) in enumerate(A["final_lines"]) if not S.info(i)["in_alarm"] and S.ins[i] != "Alarm"}
             if not A["quiet"]:
                 cl.append("twin-compared:not-quiescent")
